@@ -65,6 +65,12 @@ pub fn string_classes() -> Vec<(&'static str, fn(usize) -> String)> {
         ("shexu", |i| format!("{:016X}", (i as u64).wrapping_mul(0x9e37_79b9_7f4a_7c15))),
         ("shexdigits", |i| format!("{:012}", i * 7919)),
         ("shexodd", |i| format!("{:015x}", (i as u64).wrapping_mul(0x9e37_79b9_7f4a_7c15) >> 4)),
+        // hex strings whose packed form is 254 / 255 / 256 / 510 bytes long (the length prefix of packed bytes changes at 255)
+        ("shexlen", |i| {
+            let unit = format!("{:016x}", (i as u64 + 1).wrapping_mul(0x9e37_79b9_7f4a_7c15));
+            let chars = [508usize, 510, 512, 1020][i % 4];
+            unit.repeat(chars / 16 + 1)[..chars].to_string()
+        }),
         ("sempty", |_| String::new()),
         ("sone", |i| ["a", "b"][i % 2].to_string()),
     ]
@@ -424,7 +430,7 @@ fn push_alphabet(tier: Tier) -> Vec<Push> {
         v.push(Push::Floats("fmix".into(), *n, NullPat::None));
         v.push(Push::Floats("f32exact".into(), *n, NullPat::Alternating));
         v.push(Push::Floats("fnan".into(), *n, NullPat::First));
-        for c in ["sdict", "sunique", "shexl"] {
+        for c in ["sdict", "sunique", "shexl", "shexlen"] {
             v.push(Push::Strs(c.into(), *n, NullPat::None));
         }
         v.push(Push::Strs("slen".into(), *n, NullPat::Alternating));
@@ -688,7 +694,7 @@ impl Engine for C01 {
         let depth = if tier == Tier::Quick { 2 } else { 3 };
         Describe {
             level: "model_checking",
-            rule: "(a) every sequence of up to `depth` pushes over the push alphabet (ints of 5+2 magnitude classes, floats incl. -0.0/subnormal/inf/NaN payloads, dictionary / unique / hex / long strings, each with no / alternating / first-row null map, chunk lengths 1,(7),8,9, push_nulls(1|8)) on the real ColumnBuffer, finalized and decoded with the column decoder, compared value by value with the pushed values; (b) every (length in {1,2,7,8,9,63,64,65}, null pattern in {none, all, first, last, alternating, single present, tail}, ingestion path in {wire bytes, native TableBuffer, row API}, representation family, layout in {open buffer, flushed, flushed+reopened, no lz4, two chunks then flushed}) - one table holding all 26 column classes (10 integer, 4 float, 9 string, 3 mixed-type) - ingested into a real database and read back with SELECT c for every column and SELECT *; cells must equal the supplied values (ints exact, floats by bits, strings by bytes, NULL where none was supplied; documented coercion for mixed-type columns); (c) a generated CSV file with 18 column classes for every length x null pattern x partition size {65536, 7} loaded with load_csv and read back. Non-trivial: case contains a non-NULL value; distinct by case description.".into(),
+            rule: "(a) every sequence of up to `depth` pushes over the push alphabet (ints of 5+2 magnitude classes, floats incl. -0.0/subnormal/inf/NaN payloads, dictionary / unique / hex / long strings, each with no / alternating / first-row null map, chunk lengths 1,(7),8,9, push_nulls(1|8)) on the real ColumnBuffer, finalized and decoded with the column decoder, compared value by value with the pushed values; (b) every (length in {1,2,7,8,9,63,64,65}, null pattern in {none, all, first, last, alternating, single present, tail}, ingestion path in {wire bytes, native TableBuffer, row API}, representation family, layout in {open buffer, flushed, flushed+reopened, no lz4, two chunks then flushed}) - one table holding all 27 column classes (10 integer, 4 float, 10 string incl. hex strings whose packed length is 254 / 255 / 256 / 510 bytes, 3 mixed-type) - ingested into a real database and read back with SELECT c for every column and SELECT *; cells must equal the supplied values (ints exact, floats by bits, strings by bytes, NULL where none was supplied; documented coercion for mixed-type columns); (c) a generated CSV file with 18 column classes for every length x null pattern x partition size {65536, 7} loaded with load_csv and read back. Non-trivial: case contains a non-NULL value; distinct by case description.".into(),
             assumptions: vec![
                 "2^63-1 and the NaN pattern 0x7ffaaaaaaaaaaaaa are outside the value domain (reserved NULL markers)".into(),
                 "mixed-type columns: a cell may come back as its documented coercion (int -> float, number -> its decimal string)".into(),
